@@ -185,6 +185,7 @@ c = fragment("pdfminer.pdfpage:PDFPage.create_pages.depth_first_search", "inheri
 c.param("parent", _OptDict(_KEYS)).param("object_properties", _OptDict(_KEYS))
 c.param("cls", T.Obj("pdfminer.pdfpage:PDFPage"))
 c.max_paths = 5000
+c.mod("object_properties")
 c.ens("own-value-else-nearest-ancestor", lambda old, object_properties, cls:
       _dict_eq(object_properties, _inherit_spec(old.parent, old.object_properties,
                                                  {"Resources", "MediaBox", "CropBox", "Rotate"})))
